@@ -18,25 +18,32 @@ pub mod str_vec;
 /// Applies a key-generating function to each element of a vector and yields a vector of
 /// pairs. Each pair consists of a unique key and a vector of all elements of the input
 /// vector which did produce this key by applying the projection function.
-/// The result vector is not sorted.
+/// The result vector is ordered by the first occurrence of the keys in the input.
 pub(crate) fn group_by<P, T, K>(data: &[T], projection: P) -> Vec<(K, Vec<T>)>
 where
     P: Fn(&T) -> K,
     K: Eq + Hash,
     T: Clone,
 {
-    let mut grouping: HashMap<K, Vec<T>> = HashMap::new();
-    data.iter()
-        .fold(&mut grouping, |acc, t| {
-            let key = projection(t);
-            if let Some(vt) = acc.get_mut(&key) {
-                vt.push(t.clone());
-            } else {
-                acc.insert(key, vec![t.clone()]);
-            }
-            acc
-        })
-        .drain()
+    // The groups are kept in the order of the first occurrence of their keys to make the result
+    // independent of the hash seed of the process.
+    let mut index: HashMap<K, usize> = HashMap::new();
+    let mut grouping: Vec<(Option<K>, Vec<T>)> = Vec::new();
+    for t in data {
+        let key = projection(t);
+        if let Some(i) = index.get(&key) {
+            grouping[*i].1.push(t.clone());
+        } else {
+            grouping.push((None, vec![t.clone()]));
+            index.insert(key, grouping.len() - 1);
+        }
+    }
+    for (key, i) in index {
+        grouping[i].0 = Some(key);
+    }
+    grouping
+        .into_iter()
+        .map(|(k, v)| (k.expect("every group has a key"), v))
         .collect()
 }
 
